@@ -368,3 +368,19 @@ Theorem C09_joint_same_name_refuted :
    read_array (graph_of 7 [((0, 0), 1); ((1, 0), 2)]) 7 [(0, 0); (1, 0)] = [Some 1; Some 2])%Z.
 Proof. split; reflexivity. Qed.
 Print Assumptions C09_joint_same_name_refuted.
+
+(* ---------------- a source area that is itself a slice of a bigger area (big[r0:, c0:][r1:, c1:]..., any number of steps) ----------------
+   the search on its coordinate arrays returns positions relative to the slice: the big area's position minus the ACCUMULATED
+   start of the steps — nothing else of the slicing history enters (induction over the list of steps) *)
+Theorem C09_sliced_source_positions : forall x0 y0 a b c e, c * b - e * a <> 0 ->
+  forall steps lmax pmax, (0 <= lmax < 2 ^ 31)%Z -> (0 <= pmax < 2 ^ 31)%Z ->
+  forall (dst : Z -> Z -> R * R) H W,
+    search RO (slice_steps (affF x0 y0 a b c e) steps) lmax pmax (idx_kern RO) dst H W
+    = tab (fun i j =>
+             let L := exactL x0 y0 a b c e (fst (dst i j)) (snd (dst i j)) - IZR (fst (steps_start steps)) in
+             let P := exactP x0 y0 a b c e (fst (dst i j)) (snd (dst i j)) - IZR (snd (steps_start steps)) in
+             if inside lmax pmax L P then Some (P, L) else None) 0 H 0 W.
+Proof. exact sliced_source_positions. Qed.
+Print Assumptions C09_sliced_source_positions.
+Example C09_steps_start_ex : steps_start [(5, 8); (9, 6)]%Z = (14, 14)%Z.
+Proof. reflexivity. Qed.
